@@ -209,8 +209,12 @@ class Dm1:
     def _receive(self, priority, pgn, sa, timestamp, data):
         if pgn == self._pgn:
             self._data = data
-            self._parse_dm1_receive_data()
-            self._notify_subscribers(sa, timestamp)
+            # the subscribers get what was parsed from this message, not what the attributes hold by then
+            # (the job thread publishes a DM1 it sends to the same attributes)
+            parsed = self._parse_dm1_receive_data(data)
+            if parsed is None:
+                parsed = (self._lamp_status, self._dtc_dic_list)
+            self._notify_subscribers(sa, timestamp, parsed[0], parsed[1])
 
     def _send(self, cookie):
         # get dm1 data
@@ -252,44 +256,47 @@ class Dm1:
         # returning true keeps the timer event active
         return True
 
-    def _parse_dm1_receive_data(self):
-        length = len(self._data)
+    def _parse_dm1_receive_data(self, data):
+        length = len(data)
         if length < 6:
             logger.error("DM01: length shorted than 6 bytes")
-            return
+            return None
 
         dtc_length = length - 2
         if (length != 8) and (dtc_length % 4) != 0:
             logger.error("DM01: DTC length incorrect")
-            return
+            return None
 
         # calculate numboer of DTCs
         number_dtc = int(dtc_length / 4)
 
         # get lamp status (in a new dict: the current one may be the dict the send callback handed out)
-        self._lamp_status = {}
-        self._lamp_status['pl']  = DtcLamp().get_status( self._data[0] & 0x03,        self._data[1] & 0x03)
-        self._lamp_status['awl'] = DtcLamp().get_status((self._data[0] >> 2) & 0x03, (self._data[1] >> 2) & 0x03)
-        self._lamp_status['rsl'] = DtcLamp().get_status((self._data[0] >> 4) & 0x03, (self._data[1] >> 4) & 0x03)
-        self._lamp_status['mil'] = DtcLamp().get_status((self._data[0] >> 6) & 0x03, (self._data[1] >> 6) & 0x03)
+        lamp_status = {}
+        lamp_status['pl']  = DtcLamp().get_status( data[0] & 0x03,        data[1] & 0x03)
+        lamp_status['awl'] = DtcLamp().get_status((data[0] >> 2) & 0x03, (data[1] >> 2) & 0x03)
+        lamp_status['rsl'] = DtcLamp().get_status((data[0] >> 4) & 0x03, (data[1] >> 4) & 0x03)
+        lamp_status['mil'] = DtcLamp().get_status((data[0] >> 6) & 0x03, (data[1] >> 6) & 0x03)
 
         # get DTC (Diagnostic Trouble Code)
-        self._dtc_dic_list = []
+        dtc_dic_list = []
         for i in range(number_dtc):
-            dtc_int = ( (self._data[i*4+2] & 0xff)
-                     | ((self._data[i*4+3] & 0xff) << 8)
-                     | ((self._data[i*4+4] & 0xff) << 16)
-                     | ((self._data[i*4+5] & 0xff) << 24))
+            dtc_int = ( (data[i*4+2] & 0xff)
+                     | ((data[i*4+3] & 0xff) << 8)
+                     | ((data[i*4+4] & 0xff) << 16)
+                     | ((data[i*4+5] & 0xff) << 24))
 
             dtc = DTC(dtc=dtc_int)
-            self._dtc_dic_list.append( {'spn': dtc.spn, 'fmi': dtc.fmi, 'oc': dtc.oc } )
+            dtc_dic_list.append( {'spn': dtc.spn, 'fmi': dtc.fmi, 'oc': dtc.oc } )
 
-    def _notify_subscribers(self, sa, timestamp):
+        self._lamp_status, self._dtc_dic_list = lamp_status, dtc_dic_list
+        return lamp_status, dtc_dic_list
+
+    def _notify_subscribers(self, sa, timestamp, lamp_status, dtc_dic_list):
         # iterate over a copy: a callback may unsubscribe itself or others (which used to make the following
         # subscriber miss this message); a subscriber removed meanwhile is not called any more
         for callback in list(self._subscribers):
             if callback in self._subscribers:
-                callback(sa, self.lamp_status.copy(), self._dtc_dic_list.copy(), timestamp)
+                callback(sa, lamp_status.copy(), dtc_dic_list.copy(), timestamp)
 
 
 class Dm11:
